@@ -151,7 +151,8 @@ func (solarWeek *SolarWeek) Next(weeks int, separateMonth bool) *SolarWeek {
 						week = NewSolarWeekFromYmd(lastDay.year, lastDay.month, lastDay.day, solarWeek.start)
 						weekMonth = week.month
 					} else {
-						c = NewSolarFromYmd(week.GetYear(), week.GetMonth(), SolarUtil.GetDaysOfMonth(week.year, week.month))
+						// 当月最后一天（1582年10月只有21天，最后一天却是31日，不能把天数当作日期）
+						c = NewSolarFromYmd(week.GetYear(), week.GetMonth(), 1).NextDay(SolarUtil.GetDaysOfMonth(week.year, week.month) - 1)
 						week = NewSolarWeekFromYmd(c.GetYear(), c.GetMonth(), c.GetDay(), solarWeek.start)
 					}
 				}
